@@ -37,6 +37,7 @@ type Universe struct {
 	boxSorts   map[string]bool
 	globals    []string // global declarations (ordered)
 	tagged     map[string]string // global line -> symbol that must occur in the query for it to be included
+	sortTypes  map[string]types.Type // struct sort name -> Go type
 	globalSet  map[string]bool
 	lits       map[string]string
 	fnids      map[string]int
@@ -49,7 +50,7 @@ func newUniverse() *Universe {
 		structs:    map[string]*structInfo{}, tags: map[string]int{},
 		ifaceFacts: map[string]bool{}, ifaces: map[string]*types.Interface{},
 		boxSorts: map[string]bool{}, globalSet: map[string]bool{}, lits: map[string]string{},
-		fnids: map[string]int{}, ghost: map[string]string{}, tagged: map[string]string{},
+		fnids: map[string]int{}, ghost: map[string]string{}, tagged: map[string]string{}, sortTypes: map[string]types.Type{},
 	}
 }
 
@@ -138,7 +139,9 @@ func (u *Universe) structSort(n *types.Named, st *types.Struct) *structInfo {
 	if si, ok := u.structs[q]; ok {
 		return si
 	}
-	return u.buildStruct(q, "S_"+sanitize(q), st)
+	si := u.buildStruct(q, "S_"+sanitize(q), st)
+	u.sortTypes[si.name] = n
+	return si
 }
 
 func (u *Universe) buildStruct(q, name string, st *types.Struct) *structInfo {
